@@ -81,8 +81,17 @@ def coq_run(name, run, tabs=None):
             out += "Definition %s : list nrow := %s.\n" % (tabs[c], c)
         return tabs[c]
     top = tab(run.top or [])
-    inner = "[" + "; ".join("(%d, %s)" % (p, tab(r)) for p, r in sorted(run.inner.items())) + "]"
-    out += "Definition %s_gg : gdag := gdag_of_ntables %s %s.\n" % (name, top, inner)
+    # analyzer graphs are shared between packages: distinct tables + assignment package -> table number
+    distinct, assign = [], []
+    for p, r in sorted(run.inner.items()):
+        t = tab(r)
+        if t not in distinct:
+            distinct.append(t)
+        assign.append("(%d, %d)" % (p, distinct.index(t)))
+    out += "Definition %s_top : list nrow := %s.\n" % (name, top)
+    out += "Definition %s_tabs : list (list nrow) := [%s].\n" % (name, "; ".join(distinct))
+    out += "Definition %s_assign : list (N * N) := [%s].\n" % (name, "; ".join(assign))
+    out += "Definition %s_gg : gdag := gdag_of_nshared %s_top %s_tabs %s_assign.\n" % (name, name, name, name)
     out += "Definition %s_cap : nat := %d%%nat.\n" % (name, run.cap)
     flat = []
     for line in run.raw:
